@@ -69,6 +69,28 @@ def collect(chk):
                                                       "pre_jds": pre, "pre_seed": rng.randrange(1 << 30),
                                                       "pre_same_list": rng.random() < 0.5}, max_leaves=6):
                     traces.append(_strip(rec)); chk.rng_leaves += 1
+    # (i'') crash points: the earlier call on the same generator object was aborted by its k-th build callback raising
+    # (StubMatching!Abort), the caller kept the object; the judged call must be a fresh, exact generation
+    n_ab = 0
+    for cname in stub.MC_MIRROR + ["f_mix4", "c_repo", "c_two_two_edge"]:
+        gen = "motifs" if stub.CONFIGS[cname]["custom"] else "fast"
+        if cname in stub.MC_MIRROR:
+            fam = [j for j in stub.consistent_family(cname, 3, 2, 4) if any(any(x) for x in j)]
+        else:
+            fam = [stub.random_jds(rng, cname, rng.choice([4, 9, 20]), 2, zero_frac=0.2) for _ in range(12)]
+        for jds in fam[::4 if not thorough else 1]:
+            pre = jds if rng.random() < 0.5 else rng.choice(fam)
+            for g in ([gen] if gen == "motifs" else [gen, "network"]):
+                for k in (1, 2, rng.randrange(3, 8)):
+                    case = {"gen": g, "via": rng.choice(["direct", "main"]), "cfg": cname, "jds": jds, "pre_jds": pre,
+                            "pre_seed": rng.randrange(1 << 30), "pre_fault": k, "pre_same_list": rng.random() < 0.3}
+                    if cname in stub.MC_MIRROR:
+                        for rec, _w in stub.enumerate_leaves(case, max_leaves=3):
+                            traces.append(_strip(rec)); chk.rng_leaves += 1; n_ab += bool(rec.get("pre_aborted"))
+                    else:
+                        rec = stub.execute(dict(case, rng=("seed", rng.randrange(1 << 30))))
+                        traces.append(_strip(rec)); n_ab += bool(rec.get("pre_aborted"))
+    chk.extra["judged_calls_after_an_aborted_call_on_the_same_generator"] = n_ab
     # (ii) larger sequences under the seeded oracle, all six construction paths
     n_seeded = 3000 if thorough else 400
     for i in range(n_seeded):
@@ -114,7 +136,9 @@ def run(chk, prop=None):
     prop = prop or PROPERTY
     req = ["Shuffle", "Partition", "Emit"]
     chk.mc("MC_StubMatching", "MC_StubMatching.cfg", required=req)
-    chk.mc("MC_StubMatching", "MC_StubMatching_again.cfg", required=req + ["GenerateAgain"])   # a second graph from the same generator object
+    chk.mc("MC_StubMatching", "MC_StubMatching_again.cfg", required=req + ["GenerateAgain", "Abort"])   # a second graph from the same generator object (earlier call returned or was aborted by a raising callback)
+    chk.mc("MC_StubMatching", "MC_StubMatching_abortleak.cfg" if prop == "C01" else "MC_StubMatching_abortleak_cols.cfg",
+           expect_violation="C01_Count" if prop == "C01" else "C02_IdsPartitionCalls")   # deviation: an aborted call's columns / counter survive
     if chk.tier == "thorough":
         chk.mc("MC_StubMatching", "MC_StubMatching_big.cfg", required=req, timeout=7200)
     if prop == "C02":
